@@ -72,14 +72,14 @@ PROPS = {
     ),
     'C09': dict(
         title='Adding piecewise profiles is pointwise addition', level='other',
-        groups=both(['addpwc_py.P', 'addpwc_pyx.P', 'addpwc_py.B', 'addpwl_py.B', 'addpwl_pyx.B', 'pwc_mul.B', 'pwc_copy.B', 'pwc_add_fb.B', 'pwc_add_cy.B', 'pwl_mul.B', 'pwl_copy.B', 'pwl_add_fb.B', 'pwl_add_cy.B', 'disc_mul.B', 'disc_copy.B', 'disc_add_fb.B', 'disc_add_cy.B']),
+        groups=both(['addpwc_py.P', 'addpwc_pyx.P', 'addpwc_py.B', 'addpwl_py.B', 'addpwl_pyx.B', 'pwc_mul.B', 'pwc_copy.B', 'pwc_add_fb.B', 'pwc_add_cy.B', 'pwl_mul.B', 'pwl_copy.B', 'pwl_add_fb.B', 'pwl_add_cy.B', 'disc_mul.B', 'disc_copy.B', 'disc_add_fb.B', 'disc_add_cy.B', 'pwc_hist_copy.B', 'pwl_hist_copy.B', 'pwc_hist_acc_fa.B', 'pwc_hist_acc_co.B', 'pwl_hist_acc_fa.B', 'pwl_hist_acc_co.B', 'pwc_hist_eval.B', 'pwl_hist_eval.B']),
         technique='inductive VCs for the piecewise-constant merge (py + pyx); bounded symbolic execution for the linear merge and the class methods',
         explanation='add_piece_wise_const proved for all inputs (incl. vectorised tail copies / Cython tail loops); linear merge and the '
-                    'add / mul_scalar / copy methods bounded; frame obligations show the operand is not modified',
+                    'add / mul_scalar / copy methods bounded, result arrays never alias an operand; histories (add; mul_scalar; add again - copy; scale the original) executed over the real classes; frame obligations show the operand is not modified',
     ),
     'C10': dict(
         title='Integral, average and evaluation are exact', level='other',
-        groups=both(['pwc_integral.B', 'pwc_avrg.B', 'pwc_call.B', 'pwc_plot.B', 'pwl_integral.B', 'pwl_avrg.B', 'pwl_call.B', 'pwl_plot.B']),
+        groups=both(['pwc_integral.B', 'pwc_avrg.B', 'pwc_call.B', 'pwc_callseq.B', 'pwc_plot.B', 'pwl_integral.B', 'pwl_avrg.B', 'pwl_call.B', 'pwl_callseq.B', 'pwl_plot.B', 'pwc_hist_eval.B', 'pwl_hist_eval.B']),
         technique='bounded symbolic execution of the real methods (searchsorted as assumed contract) against the Riemann-sum definition',
         explanation='integral vs sum over pieces of value * overlap, every position of a,b (symbolic); avrg against the contract of integral; '
                     'scalar __call__ and plottable arrays; sequence path of __call__ not covered',
